@@ -43,3 +43,13 @@ ID -> int
 # slices that are re-sliced views of one backing array (seeded change C18-m11)
 []int;[]string -> int
 [][]int -> int
+# hardening round 5 — a component compared by an INLINE expression ([]byte: `(a == nil) == (b == nil) && bytes.Equal(a, b)`;
+# a pointer to an unnamed type) in element position, where derived Equal negates it (seeded change C18-m13): element of a
+# slice / an array, value of a map, behind a pointer, field of an unnamed struct, inside named types
+[][]uint8 -> int
+[2][]uint8;int -> string
+map[string][]uint8 -> int;bool
+*[]uint8;string ->
+[]BK -> int
+struct{F0 []uint8;F1 int} -> int
+[]*string;NB -> int
